@@ -991,6 +991,48 @@ def _prefixes_nonzero(F, s, e):
     return (not zero), ("all %d prefixes of definitions.units are non-zero" % len(f.prefixes) if not zero else "zero-valued prefixes %s" % zero)
 
 
+def _prefix_values_nonzero(F, s, e):
+    """The prefix values prettify divides by are non-zero: (1) in the bundled database (data check) and (2) for any loaded
+    text, because the only writer of Registry::prefixes pushes a value that passed both zero tests."""
+    ok1, why1 = _prefixes_nonzero(F, s, e)
+    writers = sorted(set(g.path for g, bb, j, f, how in cg.field_writes(F, "loader::registry::Registry", {"prefixes"}) if g.crate == CORE))
+    if writers != ["loader::load::load_defs"]:
+        return False, "Registry::prefixes is written by %s" % writers
+    fn = F.find(CORE, "loader::load::load_defs")
+    pushes = [(bb, t) for bb, t in fn.calls() if "callee" in t and t["callee"]["path"].endswith("Vec::<T, A>::push") and ap_str(fn.apath(t["args"][0])).endswith("registry.prefixes")]
+    if len(pushes) != 1:
+        return False, "expected one push into registry.prefixes, found %d" % len(pushes)
+    bb, t = pushes[0]
+    tup = fn.apath(t["args"][1])
+    if tup[0][0] != "agg" or len(tup[0][2]) != 2:
+        return False, "pushed value is not a (name, value) tuple"
+    val = tup[0][2][1]
+    while val[0][0] == "call" and val[0][1].endswith("Clone>::clone") and not val[1]:
+        val = val[0][2][0]
+    fz = float_zero_lines(F, fn)
+
+    def acc_for(which):
+        def acc(kind, gap, info):
+            if kind != "bool":
+                return None
+            r = gap[0]
+            if r[0] == "call" and r[1] in ("<types::numeric::Numeric as core::cmp::PartialEq>::eq", "<types::numeric::Numeric as core::cmp::PartialEq>::ne"):
+                args = r[2]
+                rz = [a for a in args if a[0][0] == "call" and a[0][1].endswith("::zero")]
+                fzz = [a for a in args if a[0][0] == "const" and "promoted" in str(a[0][1]) and fn.blocks[r[3]]["term"]["loc"].get("line") in fz]
+                z = rz if which == "rational" else fzz
+                other = [a for a in args if a not in rz and a not in fzz]
+                if z and other and same_value(other[0], val):
+                    return {"false"} if r[1].endswith("::eq") else {"true"}
+            return None
+        return acc
+    r1, m1 = k2.cut_gate(fn, [bb], acc_for("rational"))
+    r2, m2 = k2.cut_gate(fn, [bb], acc_for("float"))
+    ok2 = bool(m1) and bool(m2) and r1[bb] and r2[bb]
+    return (ok1 and ok2), ("%s; the loader only registers a prefix whose value passed both zero tests" % why1 if ok1 and ok2 else
+                            ("%s" % why1 if not ok1 else "load_defs registers prefixes without testing the value against zero (a definitions file with `kilo- 0` makes prettify divide by zero)"))
+
+
 def _degree_units_exist(F, s, e):
     import c10
     import datafiles
@@ -1254,6 +1296,7 @@ BACKING = {
     "is_valid_timezone": _guarded_by_call("is_valid_timezone", True),
     "contains_key": _guarded_by_call("::contains_key", True),
     "prefixes_nonzero": _prefixes_nonzero,
+    "prefix_values_nonzero": _prefix_values_nonzero,
     "degree_units_exist": _degree_units_exist,
     "magnitude_gate": _magnitude_gate,
     "integer_gate": _integer_gate,
